@@ -1199,7 +1199,14 @@ func (c *Compiler) compileFunc(node *ast.Func) error {
 	// the basic types of int, string, bool, float, and nil.
 	defaults := make([]any, len(params))
 	defaultsSet := map[int]bool{}
-	for name, expr := range node.Defaults() {
+	// (in parameter order, so that the first unsupported default is the one
+	// reported, rather than whichever the map yields first)
+	nodeDefaults := node.Defaults()
+	for _, name := range params {
+		expr, ok := nodeDefaults[name]
+		if !ok {
+			continue
+		}
 		var value any
 		switch expr := expr.(type) {
 		case *ast.Int:
